@@ -140,8 +140,14 @@ ASTNode *RecursiveParser::parseProgram() {
         debug_msg(DebugMsgId::PARSE_STATEMENT_START, current_token_.line,
                   current_token_.column);
 #ifdef CB_VERIF
-        cb_verif_trace("parse_iter %d %d", current_token_.line,
-                       current_token_.column);
+        // progress measure: twice the lexer offset, plus one once a pending
+        // second half of a split '>>' has been consumed (line / column of a
+        // token are for diagnostics only and are not monotone for tokens that
+        // span lines)
+        cb_verif_trace("parse_iter %ld %d",
+                       static_cast<long>(lexer_.verif_offset()) * 2 +
+                           (has_split_gt_token_ ? 0 : 1),
+                       0);
 #endif
         ASTNode *stmt = parseStatement();
         if (stmt != nullptr) {
